@@ -198,4 +198,4 @@ def shard(ctx: Ctx):
     def cases(draw):
         return draw(gen.schemas(feats, sizes, min_tables=1)), draw(gen.styles())
 
-    hyp_run(ctx, 'graphs', cases(), lambda c: evaluate(c[0], c[1], ctx, 'sampled'), 220 if quick else 5000)
+    hyp_run(ctx, 'graphs', cases(), lambda c: evaluate(c[0], c[1], ctx, 'sampled'), 220 if quick else 2000)
